@@ -76,7 +76,9 @@ func runC26(c *ev.Ctx) {
 func c26Case(c *ev.Ctx, r *rand.Rand, caseN int) {
 	rt := c26randomTable(r)
 	disks := map[multidb.TypeName]*memdisk.Disk{"t1": memdisk.New(), "t2": memdisk.New()}
-	desc := func() map[string]interface{} { return map[string]interface{}{"case": caseN, "routing_table": c26fmtTable(rt)} }
+	desc := func() map[string]interface{} {
+		return map[string]interface{}{"case": caseN, "routing_table": c26fmtTable(rt)}
+	}
 	hasPattern := false
 	for k, v := range rt {
 		if strings.Contains(k, "%") || strings.Contains(v.Name, "%") {
